@@ -78,6 +78,27 @@ Example C10_example_clock_behind :
   option_map (fun s => map w_id (wire_out (elog s))) (run init ex_clock_behind) = Some [52; 48; 44; 40].
 Proof. vm_compute. reflexivity. Qed.
 
+(* "content-related" is the LOW BIT of the seq_no's 32-bit pattern: the model tests [Z.odd seq] ([settle], [unacked_aux])
+   and it does not matter whether a seq_no with the top bit set (0x80000001, 0xffffffff) is read as the signed Go
+   int32 / int or as the unsigned word: the parity is the same - unlike Go's seq % 2 == 1, false for negative odd values *)
+Theorem C10_parity_is_low_bit_of_the_pattern : forall z,
+  Z.odd z = Z.odd (z mod 4294967296) /\ Z.odd z = Z.odd (wrap32 z) /\ Z.odd z = Z.testbit z 0.
+Proof.
+  assert (P : forall a b, a - b = 4294967296 * ((a - b) / 4294967296) -> Z.odd a = Z.odd b).
+  { intros a b H. replace a with (b + 2 * (2147483648 * ((a - b) / 4294967296))) by lia.
+    rewrite Z.odd_add_mul_2. reflexivity. }
+  intros z. split; [|split].
+  - apply P. pose proof (Z.div_mod z 4294967296 ltac:(lia)).
+    replace (z - z mod 4294967296) with (4294967296 * (z / 4294967296)) by lia.
+    rewrite Z.mul_comm, Z.div_mul by lia. lia.
+  - unfold wrap32. apply P.
+    pose proof (Z.div_mod (z + 2147483648) 4294967296 ltac:(lia)).
+    replace (z - ((z + 2147483648) mod 4294967296 - 2147483648)) with (4294967296 * ((z + 2147483648) / 4294967296)) by lia.
+    rewrite Z.mul_comm, Z.div_mul by lia. lia.
+  - symmetry. apply Z.bit0_odd.
+Qed.
+Print Assumptions C10_parity_is_low_bit_of_the_pattern.
+
 (* Non-vacuity: Client/Examples.v [ex_completes] is a history with two callers, two requests and
    two acknowledgements on the wire (ids 40 44 48 80, seq_nos 1 3 4 6) ending at RRead. *)
 Example C10_example : exists s, run init ex_labels = Some s /\ rx s = RRead /\ length (wire_out (elog s)) = 4%nat.
@@ -90,7 +111,7 @@ Proof. eexists. split; [vm_compute; reflexivity|split; reflexivity]. Qed.
    all connections of the session: Reconnect keeps session id and key, so the server sees the
    continuation of the same numbering - msg_id must keep increasing and seq_no must not fall back
    across a reconnect. *)
-From MTV Require Import Client.Live Client.LiveInv Client.LiveSeq.
+From MTV Require Import Client.Live Client.LiveInv Client.LiveSeq Client.LiveExamples.
 
 Theorem C10_wire_order_live : forall c ls s, run2 (init2 c) ls = Some s ->
   let w := wire_out (elog (base s)) in
@@ -139,3 +160,17 @@ Proof.
   intros c ls s o H E. pose proof (InvD2_run _ _ _ H) as D. unfold InvD2b in D. rewrite E in D. exact D.
 Qed.
 Print Assumptions C10_acks_pending_live.
+
+(* "odd seq_no" is the low bit of the 32-bit field, also for seq_nos at and above 2^31 (negative as Go int32):
+   [ERecv sid seq] carries the field as the server wrote it and the model tests Z.odd - the low bit of the pattern
+   whether it is read signed or unsigned, never a signed remainder.  Non-vacuity: [ex_wide_seq] - 0x80000001,
+   0xffffffff, 0x7fffffff are acknowledged, 0x80000000 and 0xfffffffe are not, plain and as container items. *)
+Example C10_seq_parity_is_the_low_bit :
+  map Z.odd [-2147483647; -1; 2147483647; -2147483648; -2; 2147483649; 4294967295; 2147483648; 4294967294]
+  = [true; true; true; false; false; true; true; false; false].
+Proof. exact LiveExamples.seq_parity_is_the_low_bit. Qed.
+
+Example C10_example_wide_seq : exists s, run2 (init2 LiveExamples.cfg_handler) LiveExamples.ex_wide_seq = Some s /\
+  rx (base s) = RRead /\ unacked (elog (base s)) = [] /\
+  map (fun w => w_kind w) (wire_out (elog (base s))) = [WAck 51; WAck 47; WAck 43; WAck 11; WAck 7; WAck 3].
+Proof. eexists. split; [vm_compute; reflexivity|repeat split; reflexivity]. Qed.
